@@ -241,3 +241,19 @@ check("C03", "proof",
       "(has() yields a Python bool; object construction; malformed macro calls; dotted binding vs macro variable; error VALUES "
       "kept as list/map elements or call arguments by compiled code).",
       "per-construct simulation contracts (symbolic co-execution of the real interpreter rule and the real emitted code against shared abstract callees) + result() contract + bounded whole-program differential", "DESIGN.md 4/C03")
+
+# ---- round-4 additions to the notes (see DESIGN.md 9.9)
+_ADD = {
+    "C02": " Round 4: left-nested chains x && y && z / x || y || z on mock nodes over all 7^3 operand classes (a deciding operand anywhere decides); "
+           "abstract macro contracts run their witness programs as the bounded stand-in when the exploration is undecided.",
+    "C04": " Round 4: member_dot on a map with a string and an int key (raise-envelope incl. message construction); mixed-key maps and non-finite doubles among the program atoms.",
+    "C05": " Round 4: the base activation of the frame contracts carries a declaration-only referent (clone / load_values must not share it); histories over texts that coincide after layout normalisation.",
+    "C06": " Round 4: CELParser.parse called twice on one object with arbitrary different texts returns lark's tree for each text (abstract lark callee); "
+           "bounded: significant-layout sequences with a token-position oracle.",
+    "C08": " Round 4: E-table - every comparison dunder and __hash__ of TimestampType / DurationType resolves through the MRO to datetime / timedelta (exact comparison, trusted); "
+           "an override in repository code is left undecided (opaque datetime) and the sweep (adjacent microseconds at the range ends, relations that raise count as incoherent) decides.",
+    "C12": " Round 4: every listing order of the bindings (quick: as written and reversed; thorough: all permutations); macro variables that are declared but unbound (expectation: the macro-free program's outcome).",
+    "C14": " Round 4: host functions raising a SUBCLASS of ValueError / TypeError in the rule and emitted-template contracts; variables, macro variables and declarations named like a host function in the native matrix.",
+}
+for _p, _t in _ADD.items():
+    CHECKS[_p]["level_note"] += _t
